@@ -59,15 +59,27 @@ def _violations_from_report(ex, rep):
             best[key] = {"key": key, "what": what, "rank": rank,
                          "replay": {"kind": "tracker-seq", "cfg": ex["cfg"], "requests": seq}}
 
-    for node, ri, ok, err, chg in rep["move_bad"]:
+    rows = ex["rows"]
+
+    def edges(per_node):
+        for i, idxs in enumerate(per_node):
+            for j in idxs:
+                yield (i,) + tuple(rows[i]["e"][j - 1])
+
+    def probes(per_node):
+        for i, idxs in enumerate(per_node):
+            for j in idxs:
+                yield (i,) + tuple(rows[i]["p"][j - 1])
+
+    for node, _to, ri, ok, err, chg in edges(rep["move_bad"]):
         d = {"req": reqs[ri - 1], "ok": ok, "err": err, "chg": chg}
         consider(trk.key_move(d), node, [d["req"]],
                  "C13a: the tip moved by a request the reference predicate rejects: %s" % json.dumps(d["req"], sort_keys=True))
-    for node, ri, ok, err, chg in rep["frame_bad"]:
+    for node, _to, ri, ok, err, chg in edges(rep["frame_bad"]):
         d = {"req": reqs[ri - 1], "ok": ok, "err": err, "chg": chg}
         consider(trk.key_frame(d), node, [d["req"]],
                  "C13b: %s refused with %s but %s changed" % (d["req"]["op"], trk.ERR[err], trk.chg_names(chg)))
-    for node, qi, ri, ok, err in rep["later_bad"]:
+    for node, qi, ri, ok, err, _to in probes(rep["later_bad"]):
         q, r = reqs[qi - 1], reqs[ri - 1]
         consider(trk.key_later(q, r, ok), node, [q, r],
                  "C13c: after the refused %s (%s) a correct %s %s" % (
@@ -128,11 +140,11 @@ def run(pid, tier):
     # ---- leg B: implementation state graphs
     tot_states = tot_trans = tot_obs = 0
     for name, cfg, maxdev in runs(tier):
-        ex = trk.extract(binpath, name, cfg, maxdev, max_states=4000 if quick else 12000)
+        ex = trk.extract(binpath, name, cfg, maxdev, max_states=2000 if quick else 8000)
         # one TLC run: the report (conformance, violating edges/probes) is computed at start-up, then TLC
         # walks the whole product graph x monitors with C13a/b/c as invariants (-continue: an invariant
         # failure does not stop the walk, so the product is always measured completely)
-        ri = trk.impl_tlc(ex, INVS, workers=8, tag="-inv")
+        ri = trk.impl_tlc(ex, INVS, workers=1, tag="-inv")
         rep = ri["report"]
         r = ri
         vs = _violations_from_report(ex, rep)
@@ -147,8 +159,8 @@ def run(pid, tier):
             "accepted_edges": rep["accepted"], "refused_edges": rep["refused"], "probes_after_refusal": rep["probes"],
             "product_states": r["distinct"], "product_transitions": r["states"],
             "state_budget_exhausted": bool(ex["stats"].get("capped")),
-            "spec_divergences": ndiv, "move_bad": len(rep["move_bad"]), "frame_bad": len(rep["frame_bad"]),
-            "later_bad": len(rep["later_bad"]), "invariants_violated": sorted(set(ri["violated"])),
+            "spec_divergences": ndiv, "move_bad": sum(map(len, rep["move_bad"])),
+            "frame_bad": sum(map(len, rep["frame_bad"])), "later_bad": sum(map(len, rep["later_bad"])), "invariants_violated": sorted(set(ri["violated"])),
             "wall_s": round(ex["wall_s"] + ri["wall_s"], 1)}
         if rep["accepted"] == 0 or rep["refused"] == 0 or rep["probes"] == 0:
             raise vlib.ToolError("vacuous exploration in run %s" % name)
